@@ -21,7 +21,7 @@ Tie to /repo on every run (exact, Gaussian-integer data, no tolerance):
     matrix of Spec/GateSpec.v for all parameters, is unitary, and constructor roles are as documented.
 This module also holds the helpers shared with harness/c02.py (density matrices).
 """
-STATIC = ["C01/Props", "C01/Examples", "Spec/GateSpec", "Base/TrigMat"]
+STATIC = ["C01/Props", "C01/Examples", "Spec/GateSpec", "Base/TrigMat", "Base/SemProps", "Base/SemExamples"]
 import hashlib
 import itertools
 import json
@@ -665,6 +665,8 @@ def main(run):
                         "gate matrix tables (npmatrices.py) are checked by the table obligations, not here",
                         "qulacs is outside the proof", "qubit ids are natural numbers (qibo also accepts negative ids through Python indexing)"]
     oblige_theorems(run, "C01/Props")
+    # matrix-level facts about embed / cembed proved from the same index lemmas (premises of C05, C07, C09)
+    oblige_theorems(run, "Base/SemProps")
     strings_check(run, rng)
     numpy_check(run, rng)
     cases = gen_sv_cases(run, rng)
